@@ -19,7 +19,7 @@ type c05 struct{}
 func init() {
 	register(c05{})
 	mon.Assumptions["C05"] = []string{
-		"a hang inside one lexer call has no logical clock; it is caught only by the batch watchdog followed by a solitary re-run",
+		"termination is decided in logical steps (lexer hook: token requests <= 4n+64, state transitions <= 16n+256 for n input bytes); a hang inside a single lexer state function or in a grammar action has no logical clock and is caught only by the batch watchdog followed by a solitary re-run",
 		"the lexer stream is checked up to its first ERROR item",
 	}
 }
@@ -238,9 +238,18 @@ func short(s string) string {
 
 func c05CheckText(c *mon.Ctx, name, text string) {
 	cs := map[string]any{"text": short(text), "quoted": fmt.Sprintf("%q", short(text))}
+	drive.BoundParse = true
 	o := drive.Parse(name, text)
 	c.Eval(1)
+	if n := int64(len(text)) + 1; o.NonTerm == "" {
+		// observed work per input byte, in thousandths (the bounds are 4 and 16 per byte)
+		c.MaxOf("max_token_requests_per_kilobyte", o.LexCalls*1000/n)
+		c.MaxOf("max_lexer_transitions_per_kilobyte", o.LexStates*1000/n)
+	}
 	switch {
+	case o.NonTerm != "":
+		c.Violate("does-not-terminate", fmt.Sprintf("parsing was aborted by the monitor: %s\ninput %q", o.NonTerm, short(text)), cs)
+		return
 	case o.Panic != nil:
 		c.Violate("parse-panic-escaped", fmt.Sprintf("ParsePipeline panicked: %v\ninput %q", o.Panic, short(text)), cs)
 	case o.Stderr != "":
@@ -268,6 +277,10 @@ func c05CheckText(c *mon.Ctx, name, text string) {
 	// lexer stream
 	items, pan := drive.LexAll(text, len(text)+2)
 	c.Eval(1)
+	if lb, ok := pan.(drive.LexBoundExceeded); ok {
+		c.Violate("does-not-terminate", fmt.Sprintf("the exported lexer made %d state transitions on %d bytes without producing its next item (bound %d)\ninput %q", lb.Count, len(text), lb.Bound, short(text)), cs)
+		return
+	}
 	if pan != nil {
 		c.Violate("lexer-panic", fmt.Sprintf("the exported lexer panicked: %v\ninput %q", pan, short(text)), cs)
 		return
